@@ -1,7 +1,7 @@
 (* SessFin.v -- C08: what a received FIN does (after the data, only its own id, nothing retained),
    that the other direction keeps working, and that no sending site ever emits a FIN (known finding F1). *)
 From Coq Require Import List NArith ZArith Lia Bool.
-From AnyTLS Require Import Bytes Cmd Generated GeneratedFacts Frame Reader Session BytesFacts FrameProofs
+From AnyTLS Require Import Bytes Cmd Generated FactsCore FactsSession Frame Reader Session BytesFacts FrameProofs
   ReaderProofs SessTable SessHandle SessRecv SessPipe.
 Import ListNotations.
 Import Sess.
@@ -161,4 +161,42 @@ Proof.
   - destruct (is_client c); [|nf]. destruct (lookup (fsid f) (tbl st)); nf.
   - destruct (is_client c && negb (is_nil (fdata f))); [|nf].
     destruct (map_get key_v (fdata f)) as [vs|]; [|nf]. destruct (parse_u8 vs); nf.
+Qed.
+
+(* ---------------------------------------------------------------- statements used by Props/C08.v *)
+Lemma other_direction c st sid s d chunk gs :
+  cfg_ok c -> wf_sess st -> s_closed st = false -> dead st = false ->
+  lookup sid (tbl st) = Some s -> sclosed s = false -> quiet_for c sid gs ->
+  let st' := fst (handle c st (mk Fin sid d)) in
+  write_data st' sid chunk = (map Send (data_frames sid chunk), WOk) /\
+  stream_send st' sid (length (only sid (gone st))) chunk = (with_sendq st' (sendq st' ++ [(sid, chunk)]), WOk) /\
+  fst (write_ctrl st (mk Fin sid [])) = [Send (mk Fin sid [])] /\
+  exists s', lookup sid (tbl (fst (handle_all c st gs))) = Some s' /\ rd s' = rd_pushes (rd s) (pushes sid gs).
+Proof.
+  intros Hok Hwf Hc Hd Hl Hs Hq. cbv zeta.
+  split; [apply other_direction_writer; exact Hc|].
+  split; [apply (other_direction_stream c st sid s d chunk); assumption|].
+  destruct (other_direction_sender c st sid s gs Hok Hd Hl Hq) as [H1 H2].
+  rewrite Hc in H1. split; [exact H1 | exact H2].
+Qed.
+
+Lemma cleanup c st sid d :
+  wf_sess st ->
+  lookup sid (tbl (fst (handle c st (mk Fin sid d)))) = None /\
+  (s_closed st = false -> tbl (fst (close st)) = []).
+Proof.
+  intros Hwf. destruct (fin_effect c st sid d Hwf) as (_ & H & _).
+  split; [exact H|]. intros Hc. unfold close. rewrite Hc. reflexivity.
+Qed.
+
+Lemma propagates_refuted site st sid k :
+  snd (local_eof site st sid k) = [] /\
+  (forall st2 sid2 chunk, no_fin (fst (write_data st2 sid2 chunk))) /\
+  (forall st2, no_fin (snd (fst (open st2)))) /\
+  (forall st2, no_fin (snd (pump st2))) /\
+  (forall c st2 f, no_fin (snd (handle c st2 f))).
+Proof.
+  split; [apply local_eof_silent|].
+  split; [intros; apply write_data_no_fin|]. split; [intros; apply open_no_fin|].
+  split; [intros; apply pump_no_fin | intros; apply handle_no_fin].
 Qed.
